@@ -12,3 +12,9 @@ import sys; sys.path.insert(0,'.')
 from vprove.run import run_unit
 g,r=run_unit('POWERS','/repo'); print('verus warm-up:', r['status'])
 "
+# warm the Kani dependency objects (the `anything` crate itself is rebuilt from /repo's working tree on every run)
+python3 -c "
+import sys; sys.path.insert(0,'.')
+from vprove import kani
+r=kani.run_ids('/repo'); print('kani warm-up:', r['status'])
+"
